@@ -256,7 +256,7 @@ pub fn run(rep: &Report) {
         one(rep, d, &rng, true, 10_000 + i, false);
     });
     let t = rep.thorough();
-    let n = if t { 200_000 } else { 1800 };
+    let n = if t { 200_000 } else { 12_000 };
     let seed = rep.seed;
     par_for(n, 8, |i| {
         let mut rng = Rng::new(seed).fork(0xC12_0000 + i as u64);
